@@ -60,24 +60,28 @@ def generateWork (cfg : Cfg) (forest : List Node) (anc : List Anc) (depth : Nat)
         ([], some { path := p, depth := depth, view := dent, anc := anc, rootDev := rootDev })
       else ([], none)
 
-/-- `Worker::run_one`; `contents` lists the directory (the `for result in readdir` loop with the
-recursive processing of the works it sends). -/
-def runOne (cfg : Cfg) (w : Work)
-    (contents : List Anc → Nat → Path → Option Nat → List Out) : List Out :=
+/-- The part of `Worker::run_one` that decides whether the directory of a work is listed
+(`descend` from `is_same_file_system`, then the `max_depth` test); if so, the ancestor chain its
+children get (`work.read_dir()` = `add_child`). -/
+def enterDir (cfg : Cfg) (w : Work) : Option (List Anc) :=
   match w.view with
   | .dir d _ =>
-    let descend := match w.rootDev with
-      | some rd => rd == d.dev
-      | none => true
-    -- work.read_dir(): add_child
-    let anc' := (d.ino, d.ign) :: w.anc
-    .entry w.path ::
-      (if !descend then []
-       else if (match cfg.maxDepth with
-                | some m => decide (m ≤ w.depth)
-                | none => false) then []
-       else contents anc' w.depth w.path w.rootDev)
-  | _ => [.entry w.path]
+    -- let descend = if let Some(root_device) = work.root_device { is_same_file_system(..) } else { true }
+    if !devOk w.rootDev d.dev then none
+    -- if self.max_depth.map_or(false, |max| depth >= max) { return WalkState::Skip; }
+    else if !depthOk cfg w.depth then none
+    else some ((d.ino, d.ign) :: w.anc)
+  | _ => none
+
+/-- `Worker::run_one`: the entry is handed to the visitor, then — for a directory that is entered —
+`contents` lists it (the `for result in readdir` loop with the recursive processing of the works it
+sends). -/
+def runOne (cfg : Cfg) (w : Work)
+    (contents : List Anc → Nat → Path → Option Nat → List Out) : List Out :=
+  .entry w.path ::
+    (match enterDir cfg w with
+     | some anc' => contents anc' w.depth w.path w.rootDev
+     | none => [])
 
 mutual
 def parEntry (cfg : Cfg) (forest : List Node) (jump : Contents) (rootDev : Option Nat)
